@@ -141,6 +141,48 @@ def run_single(ctx, rng, n_cases):
                             dict(replay, power=power))
 
 
+def run_presentations(ctx, rng, n_cases):
+    """'the very data the model was fitted on', handed to transform in another presentation: dimensions transposed, the variables of a
+    Dataset (a mapping) in another order, one variable transposed. Same numbers at the same labels: same scores."""
+    import xarray as xr
+    import xeofs as xe
+    for i in range(n_cases):
+        n, nlat, nlon = int(rng.integers(8, 14)), int(rng.integers(2, 4)), int(rng.integers(2, 4))
+        t = np.arange(n)
+
+        def arr(*shape):
+            return rng.standard_normal(shape) * float(rng.uniform(0.5, 3.0)) + float(rng.standard_normal())
+        a = xr.DataArray(arr(n, nlat, nlon), dims=("time", "lat", "lon"), coords={"time": t, "lat": np.arange(nlat) * 10.0, "lon": np.arange(nlon) * 5.0})
+        b = xr.DataArray(arr(n, nlat, nlon), dims=("time", "lat", "lon"), coords=a.coords)
+        c = xr.DataArray(arr(n, nlon), dims=("time", "lon"), coords={"time": t, "lon": a.lon})
+        kind = ["DataArray", "Dataset", "Dataset-different-dims"][i % 3]
+        if kind == "DataArray":
+            data = a
+            pres = [("transposed", a.transpose("lon", "time", "lat")), ("transposed2", a.transpose("lat", "lon", "time"))]
+        else:
+            data = xr.Dataset({"a": a, "b": b}) if kind == "Dataset" else xr.Dataset({"a": a, "c": c})
+            names = list(data.data_vars)
+            pres = [("variables-reordered", data[names[::-1]]), ("dataset-transposed", data.transpose("lon", "time", "lat")),
+                    ("one-variable-transposed", data.assign({names[0]: data[names[0]].transpose("lon", "lat", "time")}))]
+        k = int(rng.integers(1, 4))
+        replay = dict(kind="presentation", structure=kind, k=k, a=np.asarray(a.values), b=np.asarray(b.values), c=np.asarray(c.values))
+        try:
+            m = xe.single.EOF(n_modes=k, solver="full", standardize=bool(rng.random() < 0.3))
+            m.fit(data, "time")
+            sc = m.scores()
+        except Exception as e:
+            ctx.violation("C04:error:EOF:%s:%s" % (kind, C.errkind(e)), "EOF fit on a %s raised %r" % (kind, e), replay)
+            continue
+        for pname, pd_ in pres:
+            ctx.case(("pres", kind, pname, n, nlat, nlon, k, i), nontrivial=True, tag="EOF/%s/%s" % (kind, pname), sample=dict(cls="EOF", structure=kind, presentation=pname))
+            try:
+                tr = m.transform(pd_)
+            except Exception as e:
+                ctx.violation("C04:EOF:%s:%s:error:%s" % (kind, pname, C.errkind(e)), "EOF fitted on a %s: transform of the same data, %s, raised %r" % (kind, pname, e), dict(replay, presentation=pname))
+                continue
+            compare(ctx, "C04:EOF:%s:%s" % (kind, pname), "EOF fitted on a %s: transform of the same data, %s" % (kind, pname), sc, tr, ("time",), dict(replay, presentation=pname))
+
+
 def run_cross(ctx, rng, n_cases):
     specs = Z.specs()
     names = ["CPCCA", "MCA", "CCA", "RDA", "ComplexCPCCA", "ComplexMCA"]
@@ -282,6 +324,7 @@ def run(ctx):
     rng = ctx.rng.child("c04").np
     run_single(ctx, rng, ctx.n(60, 500))
     run_rotators(ctx, rng, ctx.n(40, 300))
+    run_presentations(ctx, rng, ctx.n(18, 180))
     run_cross(ctx, rng, ctx.n(48, 400))
     run_multi(ctx, rng, ctx.n(6, 60))
     ctx.oblige("oracle:transform(training) == scores on every transform-capable class", "oracle", not ctx.violations)
